@@ -131,7 +131,7 @@ Theorem classified_error_notified : forall c s m code sub,
     s_st (fst (step c s (EMsg m))) = Idle /\ s_conn (fst (step c s (EMsg m))) = ConnClosed /\
     s_att (fst (step c s (EMsg m))) = false.
 Proof.
-  intros c [st att cn ng rt up] m code sub [Hatt Hconn] Hl Hw Hf Hd. cbn in Hatt, Hconn.
+  intros c [st att cn ng rt up im] m code sub [Hatt Hconn] Hl Hw Hf Hd. cbn in Hatt, Hconn.
   destruct st; try discriminate; prep_state att cn Hatt Hconn.
   all: destruct b; try discriminate.
   all: unfold step; cbv beta iota zeta delta [s_st s_conn listens andb]; rewrite Hf;
@@ -185,7 +185,7 @@ Proof.
   intros y i e j Hij. unfold sys_step.
   destruct (nth_sess (y_sess y) i) as [[c s]|] eqn:Hn; [|repeat split; reflexivity].
   destruct (step c s e) as [s' os]. cbn [fst].
-  destruct (apply_outs_other c (N.of_nat i) os (s_att s) y (N.of_nat j) (of_nat_neq _ _ Hij)) as [A B].
+  destruct (apply_outs_other c (N.of_nat i) os (s_att s) (s_imp s) y (N.of_nat j) (of_nat_neq _ _ Hij)) as [A B].
   unfold rib_of, adjin_of in *. cbn [y_sess y_rib y_adjin].
   rewrite apply_outs_sess. split; [apply nth_set_other; exact Hij | split; assumption].
 Qed.
